@@ -41,6 +41,8 @@ type W struct {
 	// Conc: the temporary VMs are driven by concurrent tasks (one per VM),
 	// base definitions happen before they start.
 	Conc bool `json:"concurrent,omitempty"`
+	// NoPrep: temporary VMs are used as NewTempVM returns them (no PrepareParse before the first lookup)
+	NoPrep bool `json:"no_prepare_parse,omitempty"`
 }
 
 var classNames = []string{"A", "B", "C"}
@@ -102,6 +104,7 @@ func gen(r *verifsim.Rng, tier string) (any, hx.Sched) {
 		n = 3 + r.Intn(38)
 	}
 	w.Conc = r.Intn(4) == 0
+	w.NoPrep = r.Intn(4) == 0
 	names := allNames()
 	pool := 2 + r.Intn(len(names)-1)
 	for i := 0; i < n; i++ {
@@ -477,7 +480,9 @@ func exec(t *testing.T, x any, s hx.Sched) *hx.Outcome {
 		}})
 		for i := 0; i < w.Temps; i++ {
 			sy.temps = append(sy.temps, runtime.NewTempVM(sy.env.VM).(*runtime.TempVM))
-			sy.temps[i].PrepareParse(sy.env.P)
+			if !w.NoPrep {
+				sy.temps[i].PrepareParse(sy.env.P)
+			}
 		}
 		// the shared snippet is parsed ONCE (by the base parser, like a handler
 		// closure that every request executes) and later run on different VMs
@@ -617,7 +622,9 @@ func step(o *hx.Outcome, w *W, sy *sys, m *model, k int, op Op, log *[]string, o
 	case "discard":
 		delete(sy.auto, op.VM)
 		sy.temps[op.VM-1] = runtime.NewTempVM(sy.env.VM).(*runtime.TempVM)
-		sy.temps[op.VM-1].PrepareParse(sy.env.P)
+		if !w.NoPrep {
+			sy.temps[op.VM-1].PrepareParse(sy.env.P)
+		}
 		m.temps[op.VM-1] = table{}
 		m.maybe[op.VM-1] = table{}
 		o.Fault("vm_discard", 1)
